@@ -13,7 +13,7 @@ PROP = {
         ],
         "lanes": [
             native("c11", pkg="monx"),
-            # native("c09x", pkg="monx", name="e2e-overflow", args={"prop": "C11"}),
+            native("c09x", pkg="monx", name="e2e-overflow", args={"prop": "C11"}),
             # {"name": "strace", "kind": "script", "script": "c10-strace", "tiers": T, "args": {"prop": "C11"}},
         ],
     }
